@@ -627,6 +627,8 @@ def run(chk):
             states[o["idx"]][hs] = o["state"]
             for w, h in o["w"].items():
                 per[(o["idx"], w)][hs] = h
+            if "cluster_view" in o:
+                per[(o["idx"], "cancluster-view")][hs] = o["cluster_view"]
             for w in o["same_process"]:
                 violation("%s-not-repeatable" % w, "%s: two exports of equal matrices in one process differ" % w,
                               dict(case=dict(base_seed=base_seed, idx=o["idx"]), writer=w, hashseed=hs))
@@ -659,7 +661,7 @@ def run(chk):
                 by[h].append(s_)
             groups = sorted(by.values())
             obs = dict(hashseeds_by_output=groups)
-            if all(not h.startswith("REJ") for h in vals) and per_key["%s-hashseed-order" % w] < 3:      # diagnosis for the first few
+            if w != "cancluster-view" and all(not h.startswith("REJ") for h in vals) and per_key["%s-hashseed-order" % w] < 3:      # diagnosis for the first few
                 try:
                     x = bytes.fromhex(run_runner(groups[0][0], base_seed, [], ["--bytes", str(idx), w]).strip())
                     y = bytes.fromhex(run_runner(groups[1][0], base_seed, [], ["--bytes", str(idx), w]).strip())
